@@ -97,6 +97,13 @@ class RT:
     def defined(self, name, ns):
         return name in ns
 
+    def bind_last(self, k, seq):
+        """python leaves the loop variable bound to the last element after a loop that ran at least once.  Opt-in per loop
+        (spec key `bind_target_at_exit`): it costs one decision (sequence non-empty?) at every loop exit."""
+        if not self.spec(k).get("bind_target_at_exit"):
+            return False
+        return ctx().decide(lift(seq.length()) > 0, "loop%d-ran-at-least-once" % k)
+
     def havoc1(self, k, name, old):
         sp = self.spec(k)
         if name in sp.get("keep", ()):            # declared loop-local temporaries dead at the loop head
